@@ -134,13 +134,15 @@ Definition to_winfo (d : node) (ti : tinfo) : winfo :=
 
 (* dict key equality of the (node, parent, field, findex) tuples: nodes by identity (registered nodes have
    pairwise different ids, hence different hashes) *)
+Definition opt_eqb {A} (eqb : A -> A -> bool) (a b : option A) : bool :=
+  match a, b with
+  | None, None => true
+  | Some x, Some y => eqb x y
+  | _, _ => false
+  end.
 Definition winfo_eqb (a b : winfo) : bool :=
-  same (w_node a) (w_node b) && opt_ok same (w_parent a) (w_parent b)
-  && match w_parent a, w_parent b with None, Some _ | Some _, None => false | _, _ => true end
-  && match w_field a, w_field b with
-     | None, None => true | Some f, Some g => pystr_eqb f g | _, _ => false end
-  && match w_index a, w_index b with
-     | None, None => true | Some i, Some j => Nat.eqb i j | _, _ => false end.
+  same (w_node a) (w_node b) && opt_eqb same (w_parent a) (w_parent b)
+  && opt_eqb pystr_eqb (w_field a) (w_field b) && opt_eqb Nat.eqb (w_index a) (w_index b).
 (* `if c_info not in new_work: new_work[c_info] = None` *)
 Definition oset_add (w : winfo) (l : list winfo) : list winfo :=
   if existsb (winfo_eqb w) l then l else l ++ [w].
@@ -175,32 +177,33 @@ Definition find (ct : ctable) (root : node) (els : list element) : option (optio
   option_map (@hd_error node) (findall ct root els).
 
 (* ---------------- examples ---------------- *)
-Definition st (f : option string) (i : idxspec) (c : option string) : step :=
-  {| st_field := option_map lit f; st_index := i; st_class := option_map lit c |}.
+Definition ostr (s : string) : option pystr := match s with EmptyString => None | _ => Some (lit s) end.
+Definition st (f : string) (i : idxspec) (c : string) : step :=   (* "" = absent *)
+  {| st_field := ostr f; st_index := i; st_class := ostr c |}.
 Definition run_findall (ct : ctable) (root : node) (x : xpath) : option (list nat) :=
   match to_elements x with Some els => option_map (map addr) (findall ct root els) | None => None end.
 Definition run_match (ct : ctable) (root : node) (x : xpath) (n : node) : option (res bool) :=
   match to_elements x with Some els => xmatch ct root els n | None => None end.
 
 (* "//L" ; "/P/@items[2]L" ; "@child P//L" ; "/@child P" (D6: must not find the root) ; "//@items[]" is ill-formed *)
-Example ex_find1 : run_findall ex_ct ex_root {| xp_relative := false; xp_steps := [empty_step; st None IAbsent (Some "L")] |}
+Example ex_find1 : run_findall ex_ct ex_root {| xp_relative := false; xp_steps := [empty_step; st "" IAbsent "L"] |}
                    = Some [3; 4; 5; 6].
 Proof. vm_compute. reflexivity. Qed.
 Example ex_find2 : run_findall ex_ct ex_root
-                     {| xp_relative := false; xp_steps := [st None IAbsent (Some "P"); st (Some "items") (IVal 2) (Some "L")] |}
+                     {| xp_relative := false; xp_steps := [st "" IAbsent "P"; st "items" (IVal 2) "L"] |}
                    = Some [6].
 Proof. vm_compute. reflexivity. Qed.
 Example ex_find3 : run_findall ex_ct ex_root
-                     {| xp_relative := true; xp_steps := [st (Some "child") IAbsent (Some "P"); empty_step; st None IAbsent (Some "L")] |}
+                     {| xp_relative := true; xp_steps := [st "child" IAbsent "P"; empty_step; st "" IAbsent "L"] |}
                    = Some [3].
 Proof. vm_compute. reflexivity. Qed.
-Example ex_find4 : run_findall ex_ct ex_root {| xp_relative := false; xp_steps := [st (Some "child") IAbsent (Some "P")] |}
+Example ex_find4 : run_findall ex_ct ex_root {| xp_relative := false; xp_steps := [st "child" IAbsent "P"] |}
                    = Some [].
 Proof. vm_compute. reflexivity. Qed.
 Example ex_match3 : map (run_match ex_ct ex_root
-                     {| xp_relative := true; xp_steps := [st (Some "child") IAbsent (Some "P"); empty_step; st None IAbsent (Some "L")] |})
+                     {| xp_relative := true; xp_steps := [st "child" IAbsent "P"; empty_step; st "" IAbsent "L"] |})
                      [ex_leaf 3 "L"; ex_leaf 4 "L"; ex_leaf 7 "L"]
                    = [Some (Ok true); Some (Ok false); Some ValueError].
 Proof. vm_compute. reflexivity. Qed.
-Example ex_illformed : to_elements {| xp_relative := false; xp_steps := [st None IAbsent (Some "L"); empty_step] |} = None.
+Example ex_illformed : to_elements {| xp_relative := false; xp_steps := [st "" IAbsent "L"; empty_step] |} = None.
 Proof. vm_compute. reflexivity. Qed.
